@@ -4,8 +4,9 @@
     * `TargetRegistry.register` / `register_op` end with a top-level `self._type_cache = {}` that
       follows every loop of the function (the memo of resolved handlers is dropped as a whole);
     * `get_handler`: the memo key is `(type(obj), op)`, a miss looks the exact type up first
-      (`type_map[obj_type]`) and falls back to `_get_closest_type`, `False` raises before the only
-      memo store, the result is returned from the memo;
+      (`type_map[obj_type]`) and falls back to `_get_closest_type`, with raise_exc a `False` raises
+      before the only memo store, the result is read back from the memo and a remembered `False`
+      raises all the same;
     * `_get_sequence_item` is `target[int(index)]`.
 (2) tables of the running interpreter the extended access kernel is driven by:
     * the code points `int()` strips as whitespace, the DIGIT ZERO of every Unicode decimal block,
@@ -58,10 +59,11 @@ def _get_handler_shape(fn, helpers):
     """(memo, exact_first) for get_handler; `helpers`: name -> FunctionDef of the other methods of
     TargetRegistry (the uncached lookup may live in a private helper method).
 
-    memo (two accepted endings, see ret_ok): the key is (type(obj), op); the memo is tested with `key not in self._type_cache`; the
+    memo: the key is (type(obj), op); the memo is tested with `key not in self._type_cache`; the
     only store is the last statement of the miss branch; a `False` handler raises (when raise_exc)
     before that store — either in an earlier statement of the miss branch, or inside the helper
-    whose result is stored; the function returns `self._type_cache[key]`.
+    whose result is stored; the function reads `self._type_cache[key]` back, raises for a False
+    (remembered from a raise_exc=False lookup) when raise_exc, and returns it.
     exact_first: the lookup tries `type_map[type(obj)]` and only on KeyError `_get_closest_type`."""
     if fn is None:
         return False, False
@@ -81,8 +83,9 @@ def _get_handler_shape(fn, helpers):
     tail = [ast.unparse(st) if not isinstance(st, ast.If) else
             ('if %s: raise' % ast.unparse(st.test) if len(st.body) == 1 and isinstance(st.body[0], ast.Raise)
              and not st.orelse else '?') for st in body[-3:]]
-    ret_ok = bool(body) and (tail[-1] == 'return self._type_cache[_]' or
-                             tail == ['_ = self._type_cache[_]', 'if _ is False and p3: raise', 'return _'])
+    # (the older ending `return self._type_cache[key]` let a remembered False through to the caller:
+    # not the code the model mirrors)
+    ret_ok = tail == ['_ = self._type_cache[_]', 'if _ is False and p3: raise', 'return _']
     memo = key_ok and len(miss) == 1 and len(stores) == 1 and not calls and ret_ok
     lookup = wf          # where the uncached lookup is written
     if memo:
